@@ -69,14 +69,14 @@ def run_reader(text, widths, delimiter, at_end):
     rows = []
     try:
         for row in m["rowio"].fixed_rows(stream, "utf-8", [("f%d" % i, w) for i, w in enumerate(widths)], delimiter):
-            rows.append(list(row))
-        return "ok", rows, None
+            rows.append(row)  # copied only once reading has stopped: a row must not change after it was returned
+        return "ok", [list(r) for r in rows], None
     except NeedMoreInput:
-        return "blocked", rows, stream.snapshot
+        return "blocked", [list(r) for r in rows], stream.snapshot
     except m["errors"].DataFormatError as error:
-        return "error", rows, str(error)
+        return "error", [list(r) for r in rows], str(error)
     except Exception as error:
-        return "foreign:" + type(error).__name__, rows, repr(error)
+        return "foreign:" + type(error).__name__, [list(r) for r in rows], repr(error)
 
 
 def delimiter_name(delimiter):
